@@ -133,6 +133,17 @@ def phase_a(seed, tier, i, st):
         steps.append(dict(obj, via="argument", backend=cfg.choice(["sim-api", "cbc-wrapper"]),
                           fault={"kind": "ok", "tie": cfg.randrange(1 << 12)}))
         steps.append(dict(obj, via="property", backend="sim-api", fault={"kind": "ok", "tie": cfg.randrange(1 << 12)}))
+    if knotted and i % 3 == 2 and len(st["triples"]) <= 400:
+        # derived objects: what the library builds from this structure has a notation of its own to get right
+        stem_list = oracles.stems(pairs)
+        hows = ["from_fcfs"]
+        if any(L == 1 for _, _, L in stem_list):
+            hows.append("without_isolated")
+        if len(stem_list) <= 6:  # all_dot_brackets enumerates permutations of every knotted group
+            hows.append("from_listed")
+        for how in hows:
+            steps.append(dict(base, op="derived:" + how, via="property", backend="sim-api", warm=cfg.random() < 0.7,
+                              fault={"kind": "ok", "tie": cfg.randrange(1 << 12)}))
     return {"property": NAME, "family": st["family"], "steps": steps, "loglevel": loglevel}
 
 
